@@ -43,7 +43,7 @@ def generate(rng, tier, index):
     p = {'a': round(rng.uniform(0.5, 2.0), 3), 'b': round(rng.uniform(0.3, 1.5), 3)}
     if rng.random() < 0.5:
         p['a'] = -p['a']
-    return {'ode': ode, 'it': it, 'sched': sched, 'pattern': pattern, 't0': t0, 'T': T, 'p': p, 'scale': rng.choice([1.0, 1.0, 1.0, 20.0, 300.0]),
+    return {'ode': ode, 'it': it, 'sched': sched, 'pattern': pattern, 't0': t0, 'T': T, 'p': p, 'scale': rng.choice([1.0, 1.0, 1.0, 20.0, 300.0]), 'reuse': rng.random() < 0.3,
             'N': [8, 16, 32, 64, 128] if it == 'rk4' else [80, 160, 320, 640, 1280]}
 
 
@@ -143,6 +143,17 @@ def execute(rec):
     for N in rec['N']:
         h = T / N / mean_pat
         m = OdeModel(rec, h)
+        if rec.get('reuse'):
+            # the same model object was solved before with the OTHER integrator (then put back to its initial state): the integrator
+            # requested for this solve call is the one that must run
+            try:
+                m.solve(T * m.S * 0.25, solverType=sw.ITER['euler' if it == 'rk4' else 'rk4'], minDtFrac=1e-9, maxDtFrac=1)
+            except Exception:  # noqa
+                pass
+            m.k = 0
+            m.t = m.t0 * m.S
+            m.x = m.exact(m.t)
+            m.deriv_times, m.accepted = [], []
         w = sw.RecordingIterator(sw.ITER_FN[it])
         try:
             m.solve(T * m.S, solverType=w, minDtFrac=1e-9, maxDtFrac=1)
